@@ -21,6 +21,7 @@ EXPLANATION = (
     "computed after the last satisfy().  No solver state outside the Solver/Blocks/Block objects (STATE).  Not "
     "decided: that the multiplier-driven search reaches the optimum; termination on cyclic inputs beyond CYCLE."
     '  VPSC.ALLCS: Solver.__init__ keeps every constraint and variable it is given (no filter), registers each constraint with both ends unconditionally, resets cIn/cOut of every variable, and the inactive list is a private copy.  Blocks.split is decided on its value-numbered loop body: no block is passed over, both new blocks are inserted once, the split block (looked up before the split) is removed, the constraint is re-queued, and the multiplier bound is read from the path facts at the split call.  The merge loop is analysed after loop rotation (`while True: fetch; if not cond: break; ...` is the same loop).'
+    '  VPSC.SPLIT-TIGHT also runs populateSplitBlock on a concrete five-variable tree (offsets O0+G01, O0+G01+G12, O0-G30, pre-order) and VPSC.INDEX runs Blocks.__init__ on three variables; VPSC.ARGMIN requires the slot index of mostViolated to be a position in the inactive list itself; VPSC.EXIT: the merge loop ends only through its test.'
 )
 ASSUMPTIONS = ["positive weights and scales (property domain)"]
 
